@@ -8,6 +8,7 @@ from typing_extensions import override
 from .decodestate import DecodeState
 from .diagcodedtype import DctType, DiagCodedType
 from .encodestate import EncodeState
+from .encoding import get_string_encoding
 from .exceptions import EncodeError, odxassert, odxraise, odxrequire
 from .odxlink import OdxDocFragment
 from .odxtypes import AtomicOdxType, DataType
@@ -53,13 +54,27 @@ class LeadingLengthInfoType(DiagCodedType):
     @override
     def encode_into_pdu(self, internal_value: AtomicOdxType, encode_state: EncodeState) -> None:
 
-        if not isinstance(internal_value, (str, bytes)):
+        if not isinstance(internal_value, (str, bytes, bytearray)):
             odxraise(
                 f"LEADING-LENGTH-INFO types can only be used for strings and byte fields, "
                 f"not {type(internal_value).__name__}", EncodeError)
             return
 
-        byte_length = self._minimal_byte_length_of(internal_value)
+        # the length is the number of bytes which the value occupies
+        # in the PDU, i.e., for strings it depends on the encoding
+        # which is used below
+        byte_length = len(internal_value)
+        if isinstance(internal_value, str):
+            str_encoding = get_string_encoding(self.base_data_type, None,
+                                               self.is_highlow_byte_order)
+            if str_encoding is not None:
+                try:
+                    byte_length = len(internal_value.encode(str_encoding))
+                except UnicodeError:
+                    odxraise(
+                        f"The value '{internal_value!r}' cannot be represented "
+                        f"using the '{str_encoding}' encoding.", EncodeError)
+                    return
 
         used_mask = None
         bit_pos = encode_state.cursor_bit_position
